@@ -113,7 +113,9 @@ class SStr:
         return mk_str(citems(o) + self.items)
 
     def __mul__(self, n):
-        return mk_str(self.items * V.conc_index(n))
+        from .ints import cost_guard
+
+        return mk_str(self.items * V.conc_index(cost_guard(n, "repetition by")))
 
     def __contains__(self, o):
         return self.find(o) >= 0
